@@ -296,8 +296,8 @@ static void run_case(vh_ctx *c)
     vh_max("max_total_expvar_vs_oracle_over_bound", dv / vt[k]);
     if (!(dv <= CVAR * vt[k]))
       vh_fail(c, "CPCA|total-expvar-vs-eigenvalue", "component %zu: total_expvar %.15g, 100 eigenvalue/trace = %.15g, relative deviation %.3g, bound %.3g (x%g)", k, m->total_expvar->data[k], want, dv, vt[k], CVAR);
-    /* super weight of block b = norm of the eigenvector restricted to the block; block loading = sqrt(width) v_k[b]
-       Loading-space angles are score-space angles / rho_k: use the cumulative unit bound (no rho^2 factor was taken) */
+    /* super weight of block b = norm of the eigenvector restricted to the block; block loading = +/- sqrt(width) v_k[b]
+       (from p_b = X_b't/t't with t = +/- C v_k and C'C v_k = s_k^2 v_k).  Loading-space angles are score-space angles / rho_k: use the cumulative unit bound (no rho^2 factor was taken) */
     for (b = 0; b < nb; b++) {
       ld vn = 0, dl = 0; double dw;
       for (j = 0; j < w[b]; j++) vn += LM(EV, off[b] + j, k) * LM(EV, off[b] + j, k);
